@@ -549,6 +549,39 @@ def run_case(case, ctx, bench):
         ctx.violation("C08/%s/%s/%s" % (site, bad[0], key_class(exp, obs, refdata, case["ref"])),
                       case, dict(bad[1], call=site))
 
+    # ---- the same tag object is asked again after the unit of an addressed axis changed (through another
+    # handle): the region follows the descriptors as they are NOW (no conversion factor may be remembered)
+    requeried = False
+    if case.get("requery") and units is not None and not oor and not exp.get("incompat"):
+        import copy
+        for d in range(min(k, len(rshape))):
+            ax = case["ref"]["axes"][d]
+            if ax["t"] == "set" or not ax.get("unit") or not units[d]:
+                continue
+            parsed = units_ref.parse(ax["unit"])
+            if parsed is None or parsed[2] not in ("", "1", 1, None):
+                continue
+            cands = [pfx for pfx in ("", "m", "k", "u") if pfx != parsed[0]]
+            newunit = cands[(d + len(case["pos"])) % len(cands)] + parsed[1]
+            spec2 = copy.deepcopy(case["ref"])
+            spec2["axes"][d]["unit"] = newunit
+            try:
+                exp2 = expected(spec2["shape"], spec2["axes"], case["pos"][row],
+                                None if case.get("ext") is None else case["ext"][row], units, rule)
+            except OracleLimit:
+                break
+            try:
+                tag.references[0].dimensions[d].unit = newunit
+            except Exception:  # noqa
+                break
+            obs2 = observe(tag.tagged_data, posidx, 0, smode) if mt else observe(tag.tagged_data, 0, smode)
+            bad2 = judge(exp2, obs2, refdata)
+            if bad2:
+                ctx.violation("C08/%s-after-axis-unit-change/%s/%s" % (site, bad2[0], key_class(exp2, obs2, refdata, spec2)),
+                              case, dict(bad2[1], call=site, axis=d, new_axis_unit=newunit))
+            requeried = True
+            break
+
     # ---- classes
     classes = [kind, "rank%d" % len(rshape), "k%s" % ("=rank" if k == len(rshape) else "<rank"),
                "units:" + ucls, "ext:" + ecls, "rule:" + rule, "exact" if exp.get("exact", True) else "tolerant"]
@@ -565,6 +598,8 @@ def run_case(case, ctx, bench):
     else:
         out = "/".join(exp["why"])
     classes.append("outcome:" + out)
+    if requeried:
+        classes.append("asked-again-after-axis-unit-change")
     nt = case.get("ext") is not None
     for d, r in enumerate(exp.get("per", [])):
         if r.get("whole"):
@@ -994,6 +1029,7 @@ def recipes(draw):
         else:
             case["pos1d"] = False
         case["pcal"] = draw(st.sampled_from([None, None, None, None, "pos", "ext", "both"]))
+    case["requery"] = draw(st.booleans())
     return case
 
 
